@@ -47,6 +47,8 @@ struct Resolver {
     docs: BTreeMap<Id, String>,
     categories: BTreeMap<Id, String>,
     errors: Vec<String>,
+    /// Long names of base units, which stand for the base unit itself.
+    long_names: BTreeMap<Id, Id>,
 }
 
 impl Resolver {
@@ -164,6 +166,11 @@ impl Resolver {
     }
 
     fn visit(&mut self, id: &Id) {
+        // A base unit's long name is only usable once the base unit
+        // itself is loaded.
+        if let Some(short) = self.long_names.get(id).cloned() {
+            return self.visit(&short);
+        }
         if self.temp_marks.get(id).is_some() {
             self.errors
                 .push(format!("Unit {} has a dependency cycle", id));
@@ -324,7 +331,9 @@ pub(crate) fn load_defs(ctx: &mut Context, defs: Defs) -> Vec<String> {
         docs: BTreeMap::new(),
         categories: BTreeMap::new(),
         errors: Vec::new(),
+        long_names: BTreeMap::new(),
     };
+    let mut long_names = vec![];
     for DefEntry {
         name,
         def,
@@ -338,13 +347,19 @@ pub(crate) fn load_defs(ctx: &mut Context, defs: Defs) -> Vec<String> {
         } = *def
         {
             let long_name = resolver.intern(long_name);
-            resolver.input.insert(
+            let long_id = Id {
+                namespace: Namespace::Unit,
+                name: long_name,
+            };
+            resolver.input.insert(long_id.clone(), def.clone());
+            let short_name = resolver.intern(&name);
+            long_names.push((
+                long_id,
                 Id {
                     namespace: Namespace::Unit,
-                    name: long_name,
+                    name: short_name,
                 },
-                def.clone(),
-            );
+            ));
         }
 
         let name = resolver.intern(&name);
@@ -391,6 +406,12 @@ pub(crate) fn load_defs(ctx: &mut Context, defs: Defs) -> Vec<String> {
         resolver.unmarked.insert(id);
     }
 
+    for (long_id, short_id) in long_names {
+        // A name with a definition of its own stands for that.
+        if !resolver.unmarked.contains(&long_id) {
+            resolver.long_names.insert(long_id, short_id);
+        }
+    }
     while let Some(name) = resolver.unmarked.iter().next().cloned() {
         resolver.visit(&name)
     }
